@@ -201,6 +201,23 @@ def generate(rng, tier):
             c.model = False
             c.nontrivial = False
             cases.append(c)
+    # histories: ONE DecoderBuffer and ONE Decoder object decode a stream of ANOTHER bitstream version first; the frozen
+    # decode of the second stream must still come out (a reused buffer must not remember the previous stream's version)
+    by_ver = {}
+    for e in idx["entries"]:
+        if e["size"] <= 8000 and e.get("decode_status") == "ok":
+            by_ver.setdefault(e["version"], []).append(e["name"])
+    names = [e["name"] for e in idx["entries"] if e["size"] <= 8000 and e.get("decode_status") == "ok"]
+    legacy = [e["name"] for e in idx["entries"] if e["kind"] == "legacy" and e["size"] <= 8000 and e.get("decode_status") == "ok"]
+    pool = legacy + rng.sample(names, min(len(names), 400 if tier == "thorough" else 60))
+    ver_of = {e["name"]: e["version"] for e in idx["entries"]}
+    for nb in pool:
+        others = [v for v in by_ver if v != ver_of[nb]]
+        for va in (others if tier == "thorough" else rng.sample(others, min(2, len(others)))):
+            na = rng.choice(by_ver[va])
+            cases.append(Case(f"decseq - {streams[na].hex()} {streams[nb].hex()}", model=False,
+                              oracle=frozen_oracle(nb, decodes[nb]), tags=("history:reused-decoder-buffer", f"then-v{ver_of[nb]}"),
+                              note=f"{nb} after {na}"))
     cases += encoder_cases(idx, inputs)
     # legacy decode paths driven on purpose: the legacy files under every skip set, current streams re-labelled with the
     # legacy prediction scheme ids, and 2.2 streams transcoded to valid 2.1 streams (each verified to decode like
